@@ -272,6 +272,14 @@ func cmdCheck(args []string) int {
 		MaxConcretize: 4096, SolverPath: "z3", SolverArgs: []string{"-in"}, QueryTimeoutMs: 20000,
 		Trace: trace, Samples: 8, Seed: seed, Clock: "const",
 	}
+	if ms := envInt("SYMGO_DUMP_SLOW", 0); ms > 0 {
+		cfg.RecordQueries = true
+		cfg.SlowQuery = time.Duration(ms) * time.Millisecond
+		cfg.SlowDir = "/verif/.slow"
+	}
+	if sp := os.Getenv("SYMGO_SOLVER"); sp != "" {
+		cfg.SolverPath = sp
+	}
 	if w := envInt("VERIF_WORKERS", 0); w > 0 {
 		cfg.Workers = int(w)
 	}
